@@ -28,14 +28,14 @@ def structure_with_terms(case, variant, rnd):
             bonds.append((t[1], t[0]) if variant % 2 else (t[0], t[1]))      # forward or reversed relative to the pattern's term
         if len(t) >= 3:
             bonds.append((t[1], t[2]))
-            angles.append((t[0], t[1], t[2]))
+            angles.append((t[2], t[1], t[0]) if variant == 3 else (t[0], t[1], t[2]))
             if variant == 1:
                 angles.append((t[1], t[0], t[2]))       # same atoms, different centre: NOT the pattern's angle, must survive
         if len(t) >= 4:
             bonds.append((t[2], t[3]))
             angles.append((t[1], t[2], t[3]))
             dihedrals.append((t[3], t[2], t[1], t[0]))
-            impropers.append((t[1], t[0], t[2], t[3]))
+            impropers.append((t[3], t[2], t[0], t[1]) if variant == 3 else (t[1], t[0], t[2], t[3]))    # variant 3: every existing term listed backwards
         if outside:
             bonds.append((t[0], outside[0]))                                   # across the matched region
             if len(t) >= 2:
@@ -60,7 +60,7 @@ def structure_with_terms(case, variant, rnd):
         return Atoms(**kw)
 
 
-def replacement_with_terms(pairname, coeffs=True, long_text=False):
+def replacement_with_terms(pairname, coeffs=True, long_text=False, same_labels=False):
     from mofun import Atoms
     se, sx, re_, rx = repl.PAIRS[pairname]
     n = len(re_)
@@ -72,7 +72,9 @@ def replacement_with_terms(pairname, coeffs=True, long_text=False):
     impropers = [(1, 0, 2, 3)] if n >= 4 else []
     tail = "  with a rather long trailing comment text" if long_text else ""
     kw = dict(atom_types=[uniq.index(e) for e in els], positions=np.array(rx, dtype=float).reshape(-1, 3), atom_type_elements=uniq,
-              atom_type_masses=[100.0 + i for i in range(len(uniq))], atom_type_labels=["P_%s" % e for e in uniq],
+              atom_type_masses=[100.0 + i for i in range(len(uniq))],
+              # same_labels: the pattern uses the structure's own type labels (a re-fitted type of the same name) with its own mass / pair coefficients
+              atom_type_labels=[("S_%s" if same_labels else "P_%s") % e for e in uniq],
               charges=[0.5 + 0.1 * i for i in range(n)], groups=[7] * n,
               bonds=bonds, bond_types=[i % 2 for i in range(len(bonds))], angles=angles, angle_types=[0] * len(angles),
               dihedrals=dihedrals, dihedral_types=[0] * len(dihedrals), impropers=impropers, improper_types=[0] * len(impropers))
@@ -160,7 +162,7 @@ def check(spec):
     case = repl.planted(spec['cell'], spec['pair'], spec['copies'], spec['seed'], decoys=spec.get('decoys', 3))
     S = structure_with_terms(case, spec.get('variant', 0), rnd) if not spec.get('cif_like') else case['structure']
     sp, _ = repl.patterns(spec['pair'])
-    rp = replacement_with_terms(spec['pair'], coeffs=spec.get('pattern_coeffs', True), long_text=spec.get('long_text', False))
+    rp = replacement_with_terms(spec['pair'], coeffs=spec.get('pattern_coeffs', True), long_text=spec.get('long_text', False), same_labels=spec.get('same_labels', False))
     cell = case['cell']
     planted, poses = case['planted'], case['poses']
     cur = dict(case, structure=S)
@@ -233,7 +235,7 @@ REPLAY = {'terms': replay}
 
 def run(rec, tier, seed):
     rec.rule = ("planted structures with pre-existing typed terms inside, outside and across the matched region (forward and reversed relative to the "
-                "pattern's terms; with and without coefficient tables) x parameterised replacement patterns (bonds, angles, dihedrals, impropers, "
+                "pattern's terms, all listed backwards; with and without coefficient tables; pattern type labels different from / equal to the structure's) x parameterised replacement patterns (bonds, angles, dihedrals, impropers, "
                 "pair coefficients; short and long coefficient texts) x 3 cells; two-step workflows (second replacement on the result); the documented "
                 "CIF workflow (structure with atom types but no pair table). Reference model identifies atoms by position and compares the multiset of "
                 "(kind, atoms, coefficient text) and per-atom label/element/mass/pair/charge/group. distinct = specs")
@@ -248,6 +250,15 @@ def run(rec, tier, seed):
                 rec.case(repr(sorted(spec.items())), sample=spec if len(rec.samples) < 2 else None, group='single')
                 if msg:
                     rec.fail('terms', 'terms', "%s on %r" % (msg, spec), spec, 'C06/replace/terms')
+    for pi, pair in enumerate(('identical', 'swap-element', 'shrink-shared', 'grow-planar')):
+        for ci, cell in enumerate(('cubic', 'tri+')):
+            if tier == 'quick' and (pi + ci) % 2:
+                continue
+            spec = dict(cell=cell, pair=pair, copies=2, seed=seed * 100 + 40 + pi, variant=3, same_labels=True, rng=pi)
+            msg = check(spec)
+            rec.case(repr(sorted(spec.items())), group='single')
+            if msg:
+                rec.fail('terms', 'terms', "%s on %r" % (msg, spec), spec, 'C06/replace/terms')
     for (p1, p2) in (('swap-element', 'single-swap'), ('grow-planar', 'single-swap'), ('single-swap', 'grow-planar')):
         for cell in ('cubic', 'tri+'):
             spec = dict(cell=cell, pair=p1, copies=2, seed=seed * 100 + 60, variant=0, second=p2, long_text=True)
